@@ -904,13 +904,19 @@ func (s *clientSocket) _sendBuffers(volatile, forceSend bool, ackID *uint64, buf
 			}
 		}
 
+		// Until the CONNECT reply arrives, the server does not know the socket: a packet sent
+		// before that would overtake (or directly follow) the CONNECT packet and make the server
+		// close the connection. Such packets wait in the buffer, which `onConnect` flushes
+		// (see `emitBuffered`). The state is checked while `sendBufferMu` is held, and as long
+		// as that flush is pending, later packets queue up behind the buffered ones.
+		s.sendBufferMu.Lock()
+		defer s.sendBufferMu.Unlock()
 		s.stateMu.RLock()
-		sendImmediately := s.state == clientSocketConnStateConnected || s.state == clientSocketConnStateConnectPending
+		connected := s.state == clientSocketConnStateConnected
 		s.stateMu.RUnlock()
-		if sendImmediately || forceSend {
+		if forceSend || (connected && len(s.sendBuffer) == 0) {
 			s.manager.packet(packets...)
-		} else if !volatile {
-			s.sendBufferMu.Lock()
+		} else if !volatile || connected {
 			buffers := make([]sendBufferItem, len(packets))
 			for i := range buffers {
 				buffers[i] = sendBufferItem{
@@ -919,7 +925,6 @@ func (s *clientSocket) _sendBuffers(volatile, forceSend bool, ackID *uint64, buf
 				}
 			}
 			s.sendBuffer = append(s.sendBuffer, buffers...)
-			s.sendBufferMu.Unlock()
 		} else {
 			s.debug.Log("Packet is discarded")
 		}
